@@ -340,4 +340,31 @@ theorem gtcountAt_psum_eq (nt nv : Nat) (G : PMat) (c j : Nat) (hj : j < nv) :
   rw [col_psum nt nv G j hj, List.count, List.countP_map, List.countP_eq_length_filter]
   rfl
 
+/-! ### compressed populations: the weighted column sum is the column sum of the expanded matrix -/
+
+theorem expand_facts : ∀ (mult : List Nat) (rows : UMat) (j : Nat),
+    acountAt (expand rows mult) j = acountWAt rows mult j
+    ∧ (mult.length = rows.length → (expand rows mult).length = mult.sum)
+  | [], rows, j => by simp [expand, acountAt, acountWAt, col]
+  | _ :: _, [], j => by simp [expand, acountAt, acountWAt, col]
+  | k :: ks, r :: rs, j => by
+      obtain ⟨ih1, ih2⟩ := expand_facts ks rs j
+      constructor
+      · simp only [expand, acountAt, acountWAt, col, List.zipWith_cons_cons, List.flatten_cons,
+          List.map_append, List.sum_append, List.sum_cons, List.map_replicate, List.sum_replicate,
+          smul_eq_mul] at ih1 ⊢
+        rw [ih1]
+        simp
+      · intro h
+        have := ih2 (by simpa using h)
+        simp only [expand, List.zipWith_cons_cons, List.flatten_cons, List.length_append,
+          List.length_replicate, List.sum_cons] at this ⊢
+        rw [this]
+
+theorem afreqWAt_eq_afreqAt {α : Type} [Field α] (ploidy : Nat) (rows : UMat) (mult : List Nat)
+    (h : mult.length = rows.length) (j : Nat) :
+    afreqWAt (α := α) ploidy mult.sum rows mult j = afreqAt (α := α) ploidy (expand rows mult) j := by
+  unfold afreqWAt afreqAt
+  rw [(expand_facts mult rows j).1, (expand_facts mult rows j).2 h]
+
 end Genotype
